@@ -6,7 +6,8 @@ From DD Require Import Model.Circuit Model.Query Model.Optimal Model.TwiseCfg Mo
   Proofs.PassLemmas Proofs.Enum Proofs.Semantics Proofs.CountsA Proofs.QueryDefs Proofs.C03Proof
   Proofs.TwiseOkProof Proofs.C09Pipeline Proofs.OptimalBridge Proofs.OptimalBest
   Proofs.TwiseBase Proofs.TwiseSem Proofs.TwiseCfgProof Proofs.TwiseInv Proofs.TwiseAnd Proofs.TwiseOr
-  Proofs.TwiseShuffle Proofs.TwiseNode Proofs.TwisePass Proofs.TwiseMain Proofs.TwiseFitBase Proofs.TwiseFitMerge.
+  Proofs.TwiseShuffle Proofs.TwiseNode Proofs.TwisePass Proofs.TwiseMain Proofs.TwiseFitBase Proofs.TwiseFitMerge
+  Proofs.Live Proofs.TwiseReach.
 Import ListNotations.
 Open Scope Z_scope.
 
@@ -153,12 +154,14 @@ Definition NodeInvF (i : nat) (res : sres) : Prop :=
     ((t <= length (s_vars sm))%nat -> CovAll i (V i) t sm) /\ LitsInv i (V i) sm
   end.
 
-Lemma lit_node_fit i l : (i < length C)%nat -> nth i C FalseN = Lit l -> NodeInvF i (WithSample (s_from_literal n l)).
+Lemma lit_node_fit i l : (i < length C)%nat -> Reach C i -> nth i C FalseN = Lit l ->
+  NodeInvF i (WithSample (s_from_literal n l)).
 Proof.
-  intros Hi E. pose proof (lit_node C n t HQ i l Hi E) as H. cbn [NodeInv NodeInvF] in *.
+  intros Hi HRi E. pose proof (lit_node C n t HQ i l Hi E) as H. cbn [NodeInv NodeInvF] in *.
   destruct H as [H1 [H2 [H3 [H4 H5]]]]. split; [exact H1|]. split; [exact H2|]. split; [exact H3|]. split; [exact H4|].
   pose proof (V_unfold C n HQ i Hi) as HV. rewrite E in HV. cbn [vars_node] in HV.
-  assert (Hl : In l (lits_of C)) by (apply in_lits_of; rewrite <- E; now apply nth_In).
+  assert (Hl : LiveLit C l).
+  { exists i. split; [exact Hi|]. split; [|exact E]. split; [exact HRi|]. unfold cnt in H1. lia. }
   split.
   - intros Ht. cbn [s_from_literal s_vars length] in *. replace (Nat.min t 1) with t in H5 by lia. exact H5.
   - split; cbn [s_from_literal s_lits].
@@ -196,10 +199,10 @@ Proof.
   destruct r as [| |S]; cbn [is_void NodeInvF] in *; [discriminate|tauto|tauto].
 Qed.
 
-Lemma and_node_fit i cs rs : (i < length C)%nat -> nth i C FalseN = And cs -> Forall2 NodeInvF cs rs ->
-  NodeInvF i (andres_fit i rs).
+Lemma and_node_fit i cs rs : (i < length C)%nat -> Reach C i -> nth i C FalseN = And cs ->
+  Forall2 NodeInvF cs rs -> NodeInvF i (andres_fit i rs).
 Proof.
-  intros Hi E HF. unfold andres_fit.
+  intros Hi HRi E HF. unfold andres_fit.
   assert (Hch : forall c, In c cs -> (c < length C)%nat).
   { intros c Hc. assert (c < i)%nat by (apply (child_lt C n HQ i c Hi); now rewrite E). lia. }
   destruct (existsb is_void rs) eqn:Ev.
@@ -273,7 +276,7 @@ Proof.
     destruct (Hgen cs rs HF' (incl_refl cs) Hcsnd) as [Hg1 [Hg2 [Hg3' Hg4']]].
     assert (Hg3 : forall v, In v (flat_map s_vars (samples_of rs)) <-> In v (V i)).
     { intros v. rewrite Hg3', HVi. reflexivity. }
-    destruct (and_merge_all_fit_good C n t vals HQ i cs Hi E Hpos (samples_of rs) Hg1 Hg2) as [HR Hvars].
+    destruct (and_merge_all_fit_good C n t vals HQ i cs Hi HRi E Hpos (samples_of rs) Hg1 Hg2) as [HR Hvars].
     cbv zeta in *. fold d in HR, Hvars.
     set (R := and_merge_all_fit d t vals i (samples_of rs)) in *.
     unfold sres_of. destruct HR as [[Ee [Ev' _]]|[Ee [HS [HC [HLI [_ _]]]]]]; rewrite Ee; cbn [NodeInvF].
@@ -390,14 +393,16 @@ Qed.
 Lemma fit_root : exists ps res, partial_samples_fit d t vals = Some ps /\
   nth (root C) ps None = Some res /\ NodeInvF (root C) res.
 Proof.
-  apply (pass_root C n HQ NodeInvF (partial_sample_fit d t vals) andres_fit orres_fit).
+  apply (pass_root_reach C n HQ NodeInvF (partial_sample_fit d t vals) andres_fit orres_fit).
   - intros i ps. unfold partial_sample_fit. change (circ d) with C. change (nv d) with n.
     destruct (nth i C FalseN); reflexivity.
+  - intros i rs. unfold andres_fit. destruct (existsb is_void rs); [reflexivity|apply sres_of_not_void].
+  - intros i rs. unfold orres_fit. destruct (forallb is_void rs); [reflexivity|apply sres_of_not_void].
+  - intros i Hz. exact Hz.
   - exact lit_node_fit.
   - exact and_node_fit.
-  - exact or_node_fit.
-  - exact true_node_fit.
-  - exact false_node_fit.
+  - intros i cs rs Hi _ E HF. exact (or_node_fit i cs rs Hi E HF).
+  - intros i Hi _ E. now apply true_node_fit.
 Qed.
 
 (* ================= the root: trim, optimal completion ================= *)
